@@ -560,6 +560,7 @@ func writeEvidence(ps *propSpec, b *built, o checkOpts, agg *aggregate, violatio
 		"inserted_yield_sites": b.instrSites,
 		"known_findings_hit":  known,
 		"workers":             o.workers,
+		"distinct_count_cap":  "distinct run signatures are counted up to 262144 per worker process (conservative beyond that)",
 	}
 	for k, v := range agg.extra {
 		cov[k] = v
